@@ -484,6 +484,17 @@ func runC18(r *Report) {
 			srcs = append(srcs, src{"corpus/" + e.Name(), filepath.Join(verifDir(), "corpus", e.Name()), "corpus_" + e.Name(), flags})
 		}
 	}
+	// thorough tier: the generated JSON matrix specs are paired too (they are copied into the same
+	// extra corpus, so both forms are instantiated side by side)
+	if isThorough(r) {
+		for _, gs := range genJSONMatrix() {
+			d := filepath.Join(tmp, gs.name)
+			os.MkdirAll(d, 0o755)
+			os.WriteFile(filepath.Join(d, "openapi.yaml"), []byte(gs.yaml), 0o644)
+			os.WriteFile(filepath.Join(d, "meta.json"), []byte(`{"expect": "ok"}`), 0o644)
+			srcs = append(srcs, src{"gen/" + gs.name, d, "gen_" + gs.name, []string{"--package", pkgNameOf(gs.name)}})
+		}
+	}
 	pairs := map[string]string{} // original program name -> inline program name
 	nNoRef, nCyclic, nCustom := 0, 0, 0
 	for _, s := range srcs {
